@@ -697,6 +697,66 @@ pub fn churn<F: Fl, const CH: u8, const OUTER: usize>(c: &LifeCfg) {
     let _ = &w; // ManuallyDrop: never dropped
 }
 
+// C12, two-actor form: the churning actor is the preempted one (structural operations are never
+// solver-optional), the traffic of the long-lived handles is what runs at its preemption points
+//   CH=1: actor 0: tx1 = tx0.clone(), tx1 sends 3, drop tx1     actor 1: tx0 sends 2, rx0 receives
+//   CH=2: actor 0: rx1 = rx0.clone(), rx1 receives, drop rx1    actor 1: tx0 sends 1, rx0 receives
+pub struct Churn2<F, const CH: u8>(PhantomData<F>);
+
+impl<F: Fl, const CH: u8> Prog for Churn2<F, CH> {
+    const NACT: usize = 2;
+    const LEN: [u8; MAXACT] = [3, 2, 0, 0];
+    const BASE: [usize; MAXACT] = [0, 4, 0, 0];
+    #[inline(always)]
+    fn step(a: usize, k: usize) {
+        match (CH, a, k) {
+            (1, 0, 0) => op_clone_tx::<F>(0, 0, 1),
+            (1, 0, 1) => op_send::<F>(1, 1, 3),
+            (1, 0, _) => op_drop_tx::<F>(2, 1),
+            (1, _, 0) => op_send::<F>(4, 0, 2),
+            (1, _, _) => op_recv::<F>(5, 0),
+            (_, 0, 0) => op_clone_rx::<F>(0, 0, 1),
+            (_, 0, 1) => op_recv::<F>(1, 1),
+            (_, 0, _) => op_drop_rx::<F>(2, 1),
+            (_, _, 0) => op_send::<F>(4, 0, 1),
+            (_, _, _) => op_recv::<F>(5, 0),
+        }
+    }
+}
+
+pub fn churn2<F: Fl, const CH: u8>(c: &LifeCfg) {
+    ledger::reset();
+    payload::reset();
+    sched::configure(c.depth, c.budget, c.kinds, c.per_site);
+    let mut w = World::<F>::new(c.cap);
+    set_world::<F>(&mut *w);
+    if CH == 1 {
+        ledger::declare_other(0, 0);
+        ledger::declare_send(1, 0, 3);
+        ledger::declare_other(2, 0);
+        ledger::declare_send(4, 1, 2);
+        ledger::declare_recv(5, 1, 0);
+    } else {
+        ledger::declare_other(0, 0);
+        ledger::declare_recv(1, 0, 0);
+        ledger::declare_other(2, 0);
+        ledger::declare_send(4, 1, 1);
+        ledger::declare_recv(5, 1, 0);
+    }
+    prefix::<F>(c);
+    run_concurrent::<Churn2<F, CH>, 0>();
+    kani::cover!(sched::st().injected > 0, "an operation ran at a preemption point");
+    finish::<F>(&Finish {
+        n: c.n,
+        nstreams: 1,
+        full: 1,
+        drain_rx: [0, 0, 0],
+        probe_tx: 0,
+        probe_id0: 9,
+    });
+    let _ = &w; // ManuallyDrop: never dropped
+}
+
 // ==========================================================================================
 // C13: no receivers left (sequential)
 //   KIND 1: single stream, one handle      KIND 2: one stream, two handles
@@ -819,6 +879,10 @@ life!(c12_mp_senders_o0, hk_c12_mp_senders_o0, Runner<Churn<MpB, 1>, 0>, churn::
 life!(c12_bc_senders_o0, hk_c12_bc_senders_o0, Runner<Churn<BcB, 1>, 0>, churn::<BcB, 1, 0>(&LifeCfg { pre_send: 1, pre_recv: 1, per_site: 1, ..LQ }));
 life!(c12_mp_consumers_o1, hk_c12_mp_consumers_o1, Runner<Churn<MpB, 2>, 1>, churn::<MpB, 2, 1>(&LifeCfg { pre_send: 2, pre_recv: 1, per_site: 1, ..LQ }));
 life!(c12_bc_consumers_o1, hk_c12_bc_consumers_o1, Runner<Churn<BcB, 2>, 1>, churn::<BcB, 2, 1>(&LifeCfg { pre_send: 2, pre_recv: 1, per_site: 1, ..LQ }));
+life!(c12_mp_senders2, hk_c12_mp_senders2, Runner<Churn2<MpB, 1>, 0>, churn2::<MpB, 1>(&LifeCfg { pre_send: 1, pre_recv: 1, ..LQ }));
+life!(c12_bc_senders2, hk_c12_bc_senders2, Runner<Churn2<BcB, 1>, 0>, churn2::<BcB, 1>(&LifeCfg { pre_send: 1, pre_recv: 1, ..LQ }));
+life!(c12_mp_consumers2, hk_c12_mp_consumers2, Runner<Churn2<MpB, 2>, 0>, churn2::<MpB, 2>(&LifeCfg { pre_send: 2, pre_recv: 1, ..LQ }));
+life!(c12_bc_consumers2, hk_c12_bc_consumers2, Runner<Churn2<BcB, 2>, 0>, churn2::<BcB, 2>(&LifeCfg { pre_send: 2, pre_recv: 1, ..LQ }));
 // C13
 life!(c13_mp_one, hk_c13_mp_one, Idle, no_receivers::<MpB, 1, false, true>(2));
 life!(c13_mp_two_handles, hk_c13_mp_two_handles, Idle, no_receivers::<MpB, 2, true, true>(2));
